@@ -109,10 +109,11 @@ PROPS = {
     },
 }
 
-def _mach_prop(assumptions, extra_streams_quick=None, extra_streams_thorough=None):
+def _mach_prop(assumptions, extra_streams_quick=None, extra_streams_thorough=None, search=None):
     return {
         "ties": MACH_TIES,
-        "streams": {"quick": (extra_streams_quick or []) + [MACH_QUICK], "thorough": (extra_streams_thorough or []) + [MACH_THOROUGH]},
+        "streams": dict({"quick": (extra_streams_quick or []) + [MACH_QUICK], "thorough": (extra_streams_thorough or []) + [MACH_THOROUGH]},
+                        **({"search": search + [MACH_THOROUGH]} if search else {})),
         "level": "proof",
         "assumptions": [SYMBOLIC] + assumptions,
         "trusted_base": MACH_TB,
@@ -122,7 +123,7 @@ PROPS.update({
     "C02": _mach_prop(["TOTP validity is an oracle (the real pquerna/otp under the harness)",
                        "the SMS code is compared with the code in the session, unbound to the destination: known finding F9 (theorem C02_sms_verdict_ignores_user is its model-side witness)",
                        "parking is proven for the totp hijacker at the head of the chain and for every chain once handled; the sms hijacker's parking and the both-factors case are covered by the differential stream and the monitor"]),
-    "C07": _mach_prop(["the codec theorem is over all byte strings; single-use is proven on the storage operation (one occurrence erased); history-level counting is monitored on real traces"]),
+    "C07": _mach_prop(search=[{"name": "c18r", "n": 150, "seeds": 8}], assumptions=["the codec theorem is over all byte strings; single-use is proven on the storage operation (one occurrence erased); history-level counting is monitored on real traces"]),
     "C09": _mach_prop(["time stamps have one-second resolution (RFC 3339): known finding K1, with kernel-checked witness",
                        "expire.Setup stamps on After(EventAuth) only: OAuth2 / registration / remember logins start the idle clock at the next request (DESIGN 6-F11)"]),
     "C10": _mach_prop(["the logout response's own flash message is not 'left behind' state"]),
@@ -191,6 +192,20 @@ PROPS.update({
                         "every call that leaves the library goes through one fault oracle in the model (storage, hasher, renderer, mailer, SMS sender, OAuth2 exchange / user details); the theorems quantify over all oracles",
                         "proved: a failing Save / token use / hash / render stores nothing and is reported; save-before-session ordering for the one-time password, the remember token and recovery codes at both second-factor steps. Decided by the exhaustive fault enumeration through the correspondence check instead of a theorem: no panic over the dispatch table, no success response for an unsaved change per route",
                         "lock.Middleware / confirm.Middleware panic on a storage error by documented design: known finding K3"],
+        "trusted_base": MACH_TB,
+    },
+})
+
+PROPS.update({
+    "C16": {
+        "ties": ["Lock", "Auth", "Otp", "Recover", "Responder", "Events", "Confirm", "Values"],
+        "streams": {"quick": [{"name": "c16", "n": 400}, MACH_QUICK],
+                    "thorough": [{"name": "c16", "n": 3000, "seeds": 6}, MACH_THOROUGH]},
+        "level": "proof",
+        "assumptions": [SYMBOLIC,
+                        "what the client observes is, in the model, the actions a handler appends (session/cookie events, response) and how it ended; the harness compares the real responses byte for byte (status, every header, body) after replacing the submitted identifier by a placeholder",
+                        "theorems are for requests during which no backend call fails (C18's subject), for module lists without repetition, and a positive lock duration",
+                        "response time is not an observable of this property"],
         "trusted_base": MACH_TB,
     },
 })
